@@ -471,6 +471,21 @@ func ruleReplicateShape(c *Ctx, r *R) {
 
 // rangeOver: idx is the index variable of `for i := range s` (go/ssa lowers it to phi(-1, i+1) with i+1 < len(s)).
 func rangeOver(idx ssa.Value, s ssa.Value) bool {
+	return rangeOverP(idx, func(v ssa.Value) bool {
+		if isLenOf(v, s) {
+			return true
+		}
+		if call, ok := v.(*ssa.Call); ok {
+			if b, ok := call.Call.Value.(*ssa.Builtin); ok && b.Name() == "len" && call.Call.Args[0] == s {
+				return true
+			}
+		}
+		return false
+	})
+}
+
+// rangeOverP: idx runs over 0..n-1 where the bound n satisfies isBound (a `for i := 0; i < n; i++` or a range loop).
+func rangeOverP(idx ssa.Value, isBound func(ssa.Value) bool) bool {
 	// for i := 0; i < len(s); i++
 	if phi, ok := idx.(*ssa.Phi); ok {
 		zero, step := false, false
@@ -484,7 +499,7 @@ func rangeOver(idx ssa.Value, s ssa.Value) bool {
 		}
 		if zero && step && phi.Referrers() != nil {
 			for _, ref := range *phi.Referrers() {
-				if cmp, ok := ref.(*ssa.BinOp); ok && cmp.Op == token.LSS && cmp.X == ssa.Value(phi) && isLenOf(cmp.Y, s) {
+				if cmp, ok := ref.(*ssa.BinOp); ok && cmp.Op == token.LSS && cmp.X == ssa.Value(phi) && isBound(cmp.Y) {
 					return true
 				}
 			}
@@ -509,12 +524,8 @@ func rangeOver(idx ssa.Value, s ssa.Value) bool {
 		return false
 	}
 	for _, ref := range *bin.Referrers() {
-		if cmp, ok := ref.(*ssa.BinOp); ok && cmp.Op == token.LSS && cmp.X == ssa.Value(bin) {
-			if call, ok := cmp.Y.(*ssa.Call); ok {
-				if b, ok := call.Call.Value.(*ssa.Builtin); ok && b.Name() == "len" && call.Call.Args[0] == s {
-					return true
-				}
-			}
+		if cmp, ok := ref.(*ssa.BinOp); ok && cmp.Op == token.LSS && cmp.X == ssa.Value(bin) && isBound(cmp.Y) {
+			return true
 		}
 	}
 	return false
